@@ -16,6 +16,8 @@ def to_py(t):
         return t
     if 'l' in t:
         return [to_py(x) for x in t['l']]
+    if 's' in t:
+        return set(to_py(x) for x in t['s'])
     if 'd' in t:
         return {k: to_py(v) for k, v in t['d']}
     raise ValueError(f'not data: {t!r}')
@@ -122,7 +124,16 @@ def run_case(case):
         else:
             # solo results first (fresh cache state is not needed: the generator only makes
             # read-only pairs here; a mutation shows up in changed_after)
-            solo = {p: one_run(p) for p in ('main', 'other')}
+            def defs_now():
+                lv = live()
+                try:
+                    return [S.to_tree(root_value(case, lv, w)) for w, _ in rts]
+                except (KeyError, IndexError, TypeError) as e:
+                    return [{'obj': f'root lost: {e!r}'}]
+            solo = {}
+            for p in ('main', 'other'):
+                solo[p] = one_run(p)
+                solo[p]['defs'] = defs_now()
             obs['solo'] = solo
             obs['threaded'] = []
             for sched in case['threads']['schedules']:
@@ -143,6 +154,7 @@ def run_case(case):
                 S.TURN['active'] = False
                 if any(t.is_alive() for t in ths) or any('harness_error' in r for r in res.values()):
                     raise RuntimeError(f'threaded run failed: {res}')
+                res[0]['defs'] = res[1]['defs'] = defs_now()
                 obs['threaded'].append({'schedule': sched, 'main': res[0], 'other': res[1]})
         # a final outcome for errors: context of a failed run is not returned by run(); fine
         return obs
@@ -152,3 +164,14 @@ def run_case(case):
         loader_cache.clear_pipes()
         S.GETDEFS[0] = None
         S.TURN['active'] = False
+
+
+def coq_threads_check(case, obs):
+    solo = '[' + '; '.join(L.coq_obs(obs['solo'][p]) for p in ('main', 'other')) + ']'
+    thr = '[' + '; '.join(f'({L.coq_obs(t["main"])}, {L.coq_obs(t["other"])})' for t in obs['threaded']) + ']'
+    return (f'(c12_threads_check {L.coq_defs(case)} {L.coq_threads(case)} {L.coq_scheds(case)} '
+            f'{solo} {thr})')
+
+
+def coq_threads_show(case):
+    return f'(c12_threads_show {L.coq_defs(case)} {L.coq_threads(case)} {L.coq_scheds(case)})'
